@@ -654,11 +654,15 @@ package wire
 //@   requires info != nil
 // C13: an identifier of another package's unexported object, or of an object that is not declared at
 // package scope, sets the error (and the error, once set, stays set).
+//@ func accessibleFrom
+//@   pure
+//@   props C19 C13
 //@ func accessibleFrom$1
 //@   requires info != nil
 //@   ensures [C13] (node is *ast.Ident) && !(info.ObjectOf(node.(*ast.Ident)) is *types.PkgName) && info.ObjectOf(node.(*ast.Ident)) != nil && info.ObjectOf(node.(*ast.Ident)).Pkg() != nil && !ast.IsExported(node.(*ast.Ident).Name) && info.ObjectOf(node.(*ast.Ident)).Pkg().Path() != wantPkg ==> unexportError != nil
 //@   ensures [C13] (node is *ast.Ident) && !(info.ObjectOf(node.(*ast.Ident)) is *types.PkgName) && info.ObjectOf(node.(*ast.Ident)) != nil && info.ObjectOf(node.(*ast.Ident)).Pkg() != nil && info.ObjectOf(node.(*ast.Ident)).Parent() != nil && info.ObjectOf(node.(*ast.Ident)).Parent() != info.ObjectOf(node.(*ast.Ident)).Pkg().Scope() ==> unexportError != nil
 //@   frame [C13] old(unexportError != nil) ==> unexportError != nil
+//@   frame forall q int :: q != addr(unexportError) ==> C_error[q] == old(C_error[q])
 //@ func processValue$1
 //@   requires info != nil
 //@   ensures [C13] !allowedValueNode(info, node) ==> !ok && !result
@@ -892,5 +896,7 @@ package wire
 //@ func verifyCalls
 //@   requires fset != nil && forall k :: 0 <= k && k < len(calls) ==> calls[k].out != nil && (calls[k].kind == 2 ==> calls[k].valueTypeInfo != nil && calls[k].valueExpr != nil)
 //@   ensures [C19] len(result) == 0 ==> callsFit(calls, sig)
+//@   ensures [C19] len(result) == 0 ==> forall k :: 0 <= k && k < len(calls) && calls[k].kind == 2 ==> accessibleFrom(calls[k].valueTypeInfo, calls[k].valueExpr, pkgPath) == nil
+//@   loop 1 invariant [C19] len(ec.errors) == 0 ==> forall k :: 0 <= k && k < done && calls[k].kind == 2 ==> accessibleFrom(calls[k].valueTypeInfo, calls[k].valueExpr, pkgPath) == nil
 //@   loop 1 invariant ec != nil
 //@   loop 1 invariant [C19] len(ec.errors) == 0 ==> forall k :: 0 <= k && k < done ==> (calls[k].hasCleanup ==> sig.cleanup) && (calls[k].hasErr ==> sig.err)
